@@ -253,6 +253,7 @@ for n in ["u15_reindex_plan_need0", "u15_reindex_plan_need1", "u15_reindex_plan_
 M_COLUMN.harnesses.append(H("u16_index_walk_visits_every_live_entry", "U16", kind="bounded",
                             shape="iter_index_internal over one arbitrary 64-entry page (last chunk of a 16-bit index)",
                             bound="one chunk, four arbitrary slots (0, 1, 37, 63), the rest empty; entries in one size tier; IndexTable::entries and ValueTable::get_with_meta by contract"))
+M_COLUMN.harnesses.append(H("u17_iter_values_visits_every_table", "U17", kind="bounded", shape="HashColumn::iter_values (ValueTable::iter_while by contract)", bound="a column with 3 value tables (2 fixed tiers + blob table) instead of 256"))
 M_COLUMN.harnesses.append(H("u11_child_count_representable", "U11"))
 for (n, d) in U11_WELL:
     M_COLUMN.harnesses.append(H("u11_well_c%d_d%d" % (n, d), "U11", kind="bounded", tiers=("thorough",) if n == 255 else ("quick", "thorough"),
@@ -412,7 +413,7 @@ PROPS["C08"] = {
     "does_not_cover": ["side effects of commit_changes before commit_raw (claimed node slots, to_dereference)", "bg_err state", "clean_overlay (Entry API)"],
 }
 PROPS["C07"] = {
-    "kani_units": ["U8d"],
+    "kani_units": ["U8d", "U17"],
     "verus_units": ["ref_counter", "overlay_publish"],
     "level": "other",
     "technique": "Verus proof of the counter transition fragment of the real change_ref (all u32 counters) and of the overlay mirroring rules",
@@ -455,6 +456,7 @@ UNIT_META = {
             "assumes": ["IndexTable::{write_insert_plan,write_remove_plan}, HashColumn::{trigger_reindex,contains_partial_key_with_address}, Column::{write_new_value_plan,write_existing_value_plan} replaced by contracts (recorders); those contracts are the ones checked under U3/U13/U6/U8d, except trigger_reindex (assumed: same locks, fresh larger current index)"]},
     "U16": {"functions": ["column::HashColumn::iter_index_internal"],
             "assumes": ["IndexTable::entries returns the chunk's 64 entries (U1.transmute_is_le_word); ValueTable::get_with_meta returns the stored value/count/key tail (U6.R)"]},
+    "U17": {"functions": ["column::HashColumn::iter_values"], "assumes": ["ValueTable::iter_while replaced by its contract (calls the callback for the table's live entries)"]},
     "U11": {"functions": ["column::{unpack_node_data,unpack_node_children,packed_node_size,packed_child_count}"], "assumes": []},
     "U14": {"functions": ["table::ValueTable::{clear_slot,next_free,read_next_free,complete_plan,write_remove_plan,clear_chain}"], "assumes": ["LogWriter ghost view"]},
     "index_search": {"functions": ["index::Entry::*", "index::Address::*", "index::IndexTable::{chunk_index,find_entry_base}"], "assumes": ["read_entry contract (external_body; proved by Kani U1.read_entry_is_le_word)"]},
